@@ -18,7 +18,7 @@ from sim.terms import EX, XSD, T, key, skey, u
 
 ID = "C05"
 LEVEL = "fault_enumeration"
-TIERS = {"quick": {"runs": 2400, "wall_cap": 600}, "thorough": {"runs": 50000, "wall_cap": 3300}}
+TIERS = {"quick": {"runs": 3200, "wall_cap": 600}, "thorough": {"runs": 50000, "wall_cap": 3300}}
 RULE = (
     "each evaluation is one seeded document (N-Triples, N-Quads, Turtle, TriG rendered by an independent randomised writer from a known "
     "graph: quoting styles, \\u/\\U/ECHAR escapes, prefixes/base, ; , abbreviations, comments, CR/LF/CRLF, multi-byte and non-BMP characters; "
@@ -109,6 +109,10 @@ def generate(seed, tier):
             fk = g.choice(["error", "eof", "error", "eof", "http-404", "http-500", "redirect-loop"]) if m == "loc-http" else g.choice(["error", "eof"])
             deliveries.append({"uid": nm + j + 1, "k": "deliver", "mode": m, "chunks": chunk_schedule(g), "give_format": True, "fault": {"kind": fk, "frac": g.random()}})
     cfg = {"format": fmt, "quads": quads, "style_seed": g.randrange(1 << 30), "bufsiz": g.choice([1, 2, 5, 17, 64, 2048, 2048]), "enumerate": False}
+    if fmt in ("turtle", "trig", "json-ld", "xml") and g.chance(0.2):
+        # the base comes from the caller of parse() (publicID=...): the document declares none and writes references relative to it,
+        # and every way of handing the document over must resolve them against it
+        cfg["publicid"] = EX
     if tier == "thorough" and g.chance(0.15) and len(quads) <= 4:
         cfg["enumerate"] = True
     return {"property": ID, "config": cfg, "ops": deliveries}
@@ -142,10 +146,15 @@ def make_doc(cfg):
 
     fmt = cfg["format"]
     quads = cfg["quads"]
+    xb = cfg.get("publicid")
+    if xb and fmt in ("turtle", "trig"):
+        return writers.WRITERS[fmt](quads, random.Random(cfg["style_seed"]), ext_base=xb)
     if fmt in OWN:
         return writers.WRITERS[fmt](quads, random.Random(cfg["style_seed"]))
     if _own_xml(cfg):
-        return writers.write_rdfxml([q for q in quads if q[3] is None], random.Random(cfg["style_seed"]))
+        return writers.write_rdfxml([q for q in quads if q[3] is None], random.Random(cfg["style_seed"]), ext_base=xb)
+    if xb and fmt == "json-ld":
+        return writers.write_jsonld(quads, random.Random(cfg["style_seed"]), ext_base=xb)
     ds = Dataset()
     for s, p, o, g in quads:
         (ds.graph(T(g)) if g is not None else ds.default_graph).add((T(s), T(p), T(o)))
@@ -160,7 +169,7 @@ def make_doc(cfg):
 def _own_xml(cfg):
     """RDF/XML: half of the documents come from the independent writer (xml:base per element, an ambient xml:lang that literals
     inherit or switch off), the other half from rdflib's serialiser"""
-    return cfg["format"] == "xml" and cfg["style_seed"] % 2 == 0 and all(q[0][0] != "b" or q[0][1].isalnum() for q in cfg["quads"])
+    return cfg["format"] == "xml" and (cfg["style_seed"] % 2 == 0 or cfg.get("publicid")) and all(q[0][0] != "b" or q[0][1].isalnum() for q in cfg["quads"])
 
 
 class _NoClose(io.BytesIO):
@@ -184,6 +193,15 @@ def execute(trace, ctx):
         ctx.log("make-doc-failed", type(e).__name__)
         return
     data = doc.encode("utf-8")
+    benc = "utf-8"
+    if _own_xml(cfg) and cfg["style_seed"] % 3 == 0:
+        # an XML document says itself how its bytes are to be decoded: ISO-8859-1 when every character fits
+        try:
+            data = doc.replace('encoding="utf-8"', 'encoding="ISO-8859-1"', 1).encode("latin-1")
+            doc, benc = doc.replace('encoding="utf-8"', 'encoding="ISO-8859-1"', 1), "latin-1"
+            ctx.probe("xml-bytes-not-utf8")
+        except UnicodeEncodeError:
+            pass
     if any("\r" in (q[2][1] if q[2][0] == "l" else "") for q in cfg["quads"]) and b"\r" in data:
         ctx.probe("raw-CR-in-literal")
     if fmt in LINE_FORMATS and any(len(line) > ntmod.bufsiz for line in doc.splitlines()):
@@ -195,6 +213,8 @@ def execute(trace, ctx):
 
     def parse_with(kwargs):
         ds = Dataset()
+        if cfg.get("publicid") and "publicID" not in kwargs:
+            kwargs = dict(kwargs, publicID=cfg["publicid"])
         ds.parse(**kwargs)
         return observe(ds)
 
@@ -245,7 +265,7 @@ def execute(trace, ctx):
         elif mode == "file-stringio":
             kw = {"file": io.StringIO(doc)}
         elif mode == "file-textwrapper-nameless":
-            kw = {"file": io.TextIOWrapper(io.BytesIO(data), encoding="utf-8", newline="")}
+            kw = {"file": io.TextIOWrapper(io.BytesIO(data), encoding=benc, newline="")}
         elif mode == "textfile-utf16":
             # a real file opened in text mode whose bytes are not UTF-8: the characters are the document
             pth = os.path.join(tmpdir, f"utf16-{op['uid']}." + ext)
@@ -264,7 +284,7 @@ def execute(trace, ctx):
             ctx.probe("text-file-not-utf8")
         elif mode == "textwrap-raw":
             stream = SimRaw(data, chunks, fault, name="doc." + ext, stats=ctx.faults)
-            kw = {"file": io.TextIOWrapper(io.BufferedReader(stream, buffer_size=max(chunks[0], 16)), encoding="utf-8", newline="")}
+            kw = {"file": io.TextIOWrapper(io.BufferedReader(stream, buffer_size=max(chunks[0], 16)), encoding=benc, newline="")}
             probe_boundaries(chunks)
         elif mode in ("file-raw", "source-raw", "fis-raw"):
             stream = SimRaw(data, chunks, fault, name="doc." + ext, stats=ctx.faults)
@@ -280,6 +300,8 @@ def execute(trace, ctx):
         elif mode == "data-noformat-publicid":
             # str / bytes with no format given: Turtle is the documented default, whatever the public id (base IRI) looks like
             pid = ["http://ex.org/onto/pizza.owl", "http://ex.org/data.nt", "http://ex.org/x.json", "http://ex.org/doc.html", "http://ex.org/d.rdf"][op["uid"] % 5]
+            if cfg.get("publicid"):
+                pid = cfg["publicid"]  # (the document is written relative to that base)
             kw = {"data": doc if op["uid"] % 2 else data, "publicID": pid}
             f = fmt if fmt != "turtle" else None
             if f is None:
@@ -327,10 +349,10 @@ def execute(trace, ctx):
                 mode = "byteswrapper-str"
             if mode == "byteswrapper-text":
                 stream = SimText(doc, chunks, fault, name="doc." + ext, stats=ctx.faults)
-                src.setByteStream(BytesIOWrapper(stream, "utf-8"))
+                src.setByteStream(BytesIOWrapper(stream, benc))
                 ctx.probe("short-read-stream")
             else:
-                src.setByteStream(BytesIOWrapper(doc, "utf-8"))
+                src.setByteStream(BytesIOWrapper(doc, benc))
             kw = {"source": src}
         elif mode == "sis-str":
             kw = {"source": StringInputSource(doc)}
@@ -410,10 +432,10 @@ def execute(trace, ctx):
 
     try:
         base = parse_with({"data": doc, "format": fmt})
-        if fmt in OWN or _own_xml(cfg):
+        if fmt in OWN or _own_xml(cfg) or (cfg.get("publicid") and fmt == "json-ld"):
             # intended graph: default-graph triples land in the Dataset's default graph
             D = set()
-            for s, p, o, g in cfg["quads"] if fmt in OWN else [q for q in cfg["quads"] if q[3] is None]:
+            for s, p, o, g in cfg["quads"] if fmt != "xml" else [q for q in cfg["quads"] if q[3] is None]:
                 D.add((_norm(skey(s)), _norm(skey(p)), _norm(skey(o)), ("u", "urn:x-rdflib:default") if g is None else skey(g)))
             ctx.check(iso.isomorphic(D, base), "C05.intended-graph", lambda: f"{fmt}: data=str result differs from the graph the writer was given: intended-only={_srt(D - base)} got-only={_srt(base - D)}\n{doc}")
         ops = list(trace["ops"])
